@@ -68,6 +68,7 @@ type c10State struct {
 	real  bool
 
 	failCommit int32      // != 0: every COMMIT on the hooked connections is refused
+	slow       int        // operations / cases that ran into a deadline so far in this run
 	pause      *tokPauser // scheduling point in the decorated token repository (c10_engine.go)
 	adminCfg   string     // configured admin token of this case ("" = the default of the configuration)
 }
@@ -104,10 +105,25 @@ func (st *c10State) resolve(name string) string {
 	if name == "adm" {
 		return st.admin
 	}
+	if name == "emp" { // the empty bearer value: "Authorization: Bearer " / a websocket connect without token
+		return ""
+	}
+	if name == "non" { // no Authorization header at all (HTTP); on the websocket the same as emp
+		return c10NoHeader
+	}
 	if v, ok := st.bind[name]; ok {
 		return v
 	}
 	return c10Unknown(name)
+}
+
+const c10NoHeader = "\x00no-authorization-header"
+
+func c10WsToken(tok string) string {
+	if tok == c10NoHeader {
+		return ""
+	}
+	return tok
 }
 
 func (st *c10State) do(method, path, tok string) (code int, body string) {
@@ -116,6 +132,9 @@ func (st *c10State) do(method, path, tok string) (code int, body string) {
 			code, body = -1, fmt.Sprintf("PANIC %v", r)
 		}
 	}()
+	if tok == c10NoHeader {
+		return st.fs.Do(method, path, "", nil)
+	}
 	return st.fs.Do(method, path, "", map[string]string{"Authorization": "Bearer " + tok})
 }
 
@@ -129,7 +148,7 @@ func (st *c10State) role(tok string) string {
 			IsAdmin bool   `json:"isAdmin"`
 		}
 		if err := json.Unmarshal([]byte(body), &t); err != nil || t.Token != tok {
-			return "BADBODY"
+			return "BADBODY" // GET /access must echo the token the request was authenticated with
 		}
 		if t.IsAdmin {
 			return "A"
@@ -254,7 +273,8 @@ func (st *c10State) op(o string, dir string) string {
 		select {
 		case <-reached: // held after its lookup returned
 		case inflight = <-done: // answered without a lookup (admin token) - nothing to hold
-		case <-time.After(5 * time.Second):
+			st.pause.disarm()
+		case <-time.After(waitDeadline):
 			inflight = "TIMEOUT"
 		}
 		code, _ := st.do("DELETE", "/api/v1/access/"+tok, st.admin)
@@ -263,7 +283,7 @@ func (st *c10State) op(o string, dir string) string {
 		if inflight == "" {
 			select {
 			case inflight = <-done:
-			case <-time.After(5 * time.Second):
+			case <-time.After(waitDeadline):
 				inflight = "TIMEOUT"
 			}
 		}
@@ -293,14 +313,14 @@ func (st *c10State) op(o string, dir string) string {
 					direct = "PANIC"
 				}
 			}()
-			if _, err := st.fs.Services.Tokens.GetToken(tok); err != nil {
+			if _, err := st.fs.Services.Tokens.GetToken(c10WsToken(tok)); err != nil {
 				direct = "no"
 			}
 		}()
 		if !st.real {
 			return "w:" + direct
 		}
-		r := st.fs.WsConnect(tok)
+		r := st.fs.WsConnect(c10WsToken(tok))
 		if r == "no:3500" {
 			r = "no"
 		}
@@ -324,7 +344,7 @@ func (st *c10State) op(o string, dir string) string {
 		fdone := make(chan string, 1)
 		go func() { fdone <- st.role(first) }()
 		if first != st.admin {
-			waitFor(2*time.Second, func() bool { return waiters() >= 1 })
+			waitFor(waitDeadline, func() bool { return waiters() >= 1 })
 		} else {
 			time.Sleep(2 * time.Millisecond)
 		}
@@ -347,7 +367,7 @@ func (st *c10State) op(o string, dir string) string {
 					r3 <- "PANIC"
 				}
 			}()
-			if _, err := st.fs.Services.Tokens.GetToken(second); err != nil {
+			if _, err := st.fs.Services.Tokens.GetToken(c10WsToken(second)); err != nil {
 				r3 <- "no"
 			} else {
 				r3 <- "ok"
@@ -358,7 +378,7 @@ func (st *c10State) op(o string, dir string) string {
 				r4 <- ""
 				return
 			}
-			rc := st.fs.WsConnect(second)
+			rc := st.fs.WsConnect(c10WsToken(second))
 			if rc == "no:3500" {
 				rc = "no"
 			}
@@ -378,7 +398,7 @@ func (st *c10State) op(o string, dir string) string {
 			select {
 			case r := <-ch:
 				return r
-			case <-time.After(10 * time.Second):
+			case <-time.After(waitDeadline):
 				return "TIMEOUT"
 			}
 		}
@@ -396,7 +416,8 @@ func (st *c10State) op(o string, dir string) string {
 		select {
 		case <-reached: // the authenticate of <held> is now inside the repository, its lookup has returned
 		case heldRes = <-hdone: // answered without a lookup (admin token)
-		case <-time.After(5 * time.Second):
+			st.pause.disarm()
+		case <-time.After(waitDeadline):
 			heldRes = "TIMEOUT"
 		}
 		// meanwhile authenticate <probe>: ordinary route, an admin route (DELETE of a never issued value: no
@@ -418,12 +439,12 @@ func (st *c10State) op(o string, dir string) string {
 						r3 = "PANIC"
 					}
 				}()
-				if _, err := st.fs.Services.Tokens.GetToken(probe); err != nil {
+				if _, err := st.fs.Services.Tokens.GetToken(c10WsToken(probe)); err != nil {
 					r3 = "no"
 				}
 			}()
 			if st.real {
-				if rc := st.fs.WsConnect(probe); rc == "no:3500" {
+				if rc := st.fs.WsConnect(c10WsToken(probe)); rc == "no:3500" {
 					if r3 != "no" {
 						r3 = "INCONSISTENT(client=no,check=" + r3 + ")"
 					}
@@ -443,14 +464,14 @@ func (st *c10State) op(o string, dir string) string {
 		if probeRes == "" {
 			select {
 			case probeRes = <-pdone:
-			case <-time.After(10 * time.Second):
+			case <-time.After(waitDeadline):
 				probeRes = "TIMEOUT"
 			}
 		}
 		if heldRes == "" {
 			select {
 			case heldRes = <-hdone:
-			case <-time.After(5 * time.Second):
+			case <-time.After(waitDeadline):
 				heldRes = "TIMEOUT"
 			}
 		}
@@ -505,16 +526,47 @@ func (st *c10State) runCase(input string, idx int) (string, error) {
 		_ = os.RemoveAll(dir)
 	}()
 	var res []string
+	started := time.Now()
 	for _, o := range ops {
 		if o == "" {
 			continue
 		}
-		r := st.op(o, dir)
-		if strings.HasPrefix(r, "x:ERR") {
-			res = append(res, r)
+		// every operation runs under a deadline: an implementation that makes the harness wait shows up as an
+		// observable (OP-TIMEOUT / +HOLD-TIMEOUT / CASE-TIMEOUT), never as a hang
+		if time.Since(started) > 25*time.Second {
+			res = append(res, "CASE-TIMEOUT")
+			st.slow++
 			break
 		}
-		res = append(res, r+"/"+st.vector())
+		opdone := make(chan string, 1)
+		go func(o string) {
+			defer func() {
+				if r := recover(); r != nil {
+					opdone <- fmt.Sprintf("PANIC(%v)", r)
+				}
+			}()
+			r := st.op(o, dir)
+			if !strings.HasPrefix(r, "x:ERR") {
+				r += "/" + st.vector()
+			}
+			opdone <- r
+		}(o)
+		var r string
+		select {
+		case r = <-opdone:
+		case <-time.After(20 * time.Second):
+			r = "OP-TIMEOUT"
+		}
+		if n := st.pause.takeTimeouts(); n > 0 {
+			r = strings.Replace(r, "/", "+HOLD-TIMEOUT/", 1)
+			st.slow++
+		}
+		res = append(res, strings.ReplaceAll(r, " ", "_"))
+		if r == "OP-TIMEOUT" || strings.HasPrefix(r, "x:ERR") {
+			st.slow++
+			st.fs = nil // the stack may still be in use by the abandoned operation: leave it behind
+			break
+		}
 	}
 	return strings.Join(res, " "), nil
 }
@@ -537,8 +589,10 @@ func c10Gen(c *Ctx, maxLen int) string {
 			return pick(revoked)
 		case r < 80:
 			return "adm"
-		case r < 86:
+		case r < 84:
 			return pick([]string{"u1", "u2"})
+		case r < 86:
+			return pick([]string{"emp", "non"})
 		case r < 90:
 			base := "adm"
 			if len(created) > 0 && c.Rng.Intn(3) > 0 {
@@ -549,6 +603,14 @@ func c10Gen(c *Ctx, maxLen int) string {
 			return pick(unbound) // a name that is created later (or never)
 		}
 		return "u1"
+	}
+	// a value that can be named in DELETE /access/<value> (the empty value and "no header" cannot)
+	target := func() string {
+		for {
+			if n := anyName(); n != "emp" && n != "non" {
+				return n
+			}
+		}
 	}
 	cred := func() string {
 		if c.Rng.Intn(100) < 80 {
@@ -578,9 +640,9 @@ func c10Gen(c *Ctx, maxLen int) string {
 			}
 			ops = append(ops, "Cf:"+cred()+":"+nm)
 		case r < 27:
-			ops = append(ops, "Rf:"+cred()+":"+anyName())
+			ops = append(ops, "Rf:"+cred()+":"+target())
 		case r < 33:
-			nm := anyName()
+			nm := target()
 			ops = append(ops, "RACE:"+nm)
 			for k, x := range created {
 				if x == nm {
@@ -590,7 +652,7 @@ func c10Gen(c *Ctx, maxLen int) string {
 				}
 			}
 		case r < 50:
-			nm := anyName()
+			nm := target()
 			cr := cred()
 			ops = append(ops, "R:"+cr+":"+nm)
 			if cr == "adm" {
@@ -618,11 +680,19 @@ func runC10(c *Ctx) error {
 	idx := 0
 	one := func(input, class string) error {
 		idx++
+		if st.slow >= 3 && c.Only == "" {
+			// the implementation keeps running into the harness's deadlines: the failing inputs are on file,
+			// more of them would only take time
+			c.Count("case:skipped-after-repeated-timeouts")
+			return nil
+		}
+		fmt.Fprintf(os.Stderr, "c10: case %d in flight: %s\n", idx, input)
 		obs, err := st.runCase(input, idx)
 		if err != nil {
 			return err
 		}
 		c.Case(input, obs)
+		flushCases(c)
 		c.Count("case:" + class)
 		if st.real {
 			c.Count("ws:real-client")
